@@ -423,6 +423,8 @@ type retryRun struct {
 	acceptedT                 []time.Time
 	rejected                  int
 	connRet                   string
+	retMu                     sync.Mutex
+	retFrozen                 bool
 	connDone                  chan struct{}
 	planMiss                  []string
 	idStart                   map[int]uint32
@@ -435,6 +437,13 @@ type retryRun struct {
 	firstAcked                bool
 	started                   bool
 	startAt, discAt, cancelAt time.Time // zero if the event did not happen (cancelAt: only an effective cancellation)
+}
+
+func (r *retryRun) frozenConnRet() string {
+	r.retMu.Lock()
+	defer r.retMu.Unlock()
+	r.retFrozen = true
+	return r.connRet
 }
 
 func isAppEv(ev string) bool {
@@ -583,13 +592,19 @@ func runRetryScript(cfg, method, faultStr string, evs []string, plan []planPoint
 			go func() {
 				sp, err := cli.Connect(connCtx, "cid", mqtt.WithCleanSession(false), mqtt.WithUserNamePassword("user", "pw"),
 					mqtt.WithWill(&mqtt.Message{Topic: "will/t", Payload: []byte{1, 2}, QoS: mqtt.QoS1, Retain: true}))
-				if err != nil {
-					r.connRet = "err"
-				} else if sp {
-					r.connRet = "1"
-				} else {
-					r.connRet = "0"
+				// what Connect returned DURING the script (the deferred cancellation at the end of the run also makes a
+				// still-waiting Connect return: that is not part of the observed behaviour)
+				r.retMu.Lock()
+				if !r.retFrozen {
+					if err != nil {
+						r.connRet = "err"
+					} else if sp {
+						r.connRet = "1"
+					} else {
+						r.connRet = "0"
+					}
 				}
+				r.retMu.Unlock()
 				// the usual pattern: the context given to Connect is released as soon as it has returned;
 				// the client must keep reconnecting, timing out and retransmitting regardless
 				connCancel()
@@ -869,6 +884,7 @@ func runRetryScript(cfg, method, faultStr string, evs []string, plan []planPoint
 			r.planMiss = append(r.planMiss, "disc:disconnect-did-not-return")
 		}
 	}
+	r.frozenConnRet() // before the deferred cancellation of the Connect context
 	return r
 }
 
@@ -919,7 +935,7 @@ func (r *retryRun) render(stuck bool) string {
 	_ = pend
 	return strings.Join(conns, " ") + fmt.Sprintf(" dl=%s bs=%s ak=%s oe=%s hd=%s tt=%d tr=%d qr=%s qt=%s dials=%d ret=%s rej=%d",
 		joinOr(dl, ","), joinOr(bs, ","), joinOr(s.broker.acked, ","), joinOr([]string{strings.Join(s.onErr, "")}, ""), joinOr(s.handled, ","),
-		st.TotalTasks, st.TotalRetries, qr, qt, s.dialReq, r.connRet, r.rejected)
+		st.TotalTasks, st.TotalRetries, qr, qt, s.dialReq, r.frozenConnRet(), r.rejected)
 }
 
 func joinOr(l []string, sep string) string {
